@@ -738,8 +738,8 @@ theorem AllocRefines.weaken {r : AOut × A} {res : M (AllocOut × St)}
       exact absurd hm' (hne m)
     · exact hm
 
-theorem okAlignment_bounds {a : Nat} (h : okAlignment a) : 1 ≤ a ∧ a ≤ 16 := by
-  rcases h with rfl | rfl | rfl | rfl | rfl <;> omega
+theorem okAlignment_bounds {a : Nat} (h : okAlignment a) : 1 ≤ a ∧ a ≤ 64 := by
+  rcases h with rfl | rfl | rfl | rfl | rfl | rfl | rfl <;> omega
 
 end
 
